@@ -341,7 +341,7 @@ def _q6(ctx, rep):
     bdefs = {s_.targets[0].id: s_.value for s_ in lp.body if isinstance(s_, ast.Assign) and len(s_.targets) == 1 and isinstance(s_.targets[0], ast.Name)}
     # the scalar multiplying the trace: find 1j / DEN
     den = None
-    for n in ast.walk(lp):
+    for n in own_nodes(f.node):       # in the loop, or hoisted in front of it
         if isinstance(n, ast.BinOp) and isinstance(n.op, ast.Div) and isinstance(n.left, ast.Constant) and isinstance(n.left.value, complex) and n.left.value == 1j:
             den = n.right
     if den is None:
